@@ -912,7 +912,22 @@ pub fn run() -> SimResult {
         embed: draw(3) == 0,
     };
     let mut budget = *pick(&[3i32, 8, 20, 40]);
-    let g = if chance(1, 8) {
+    let g = if chance(1, 30) {
+        // a deep chain of single-member wrappers (indentation and closing state at depth)
+        let depth = range(8, 70);
+        let mut g = gen_g(&kn, 4, &mut 1);
+        for d in 0..depth {
+            g = match (d + draw(3)) % 6 {
+                0 => G::Seq(vec![g], draw(2) == 1),
+                1 => G::Map(vec![(K::Str(GStr::Heap(format!("k{}", d))), g)], draw(2) == 1),
+                2 => G::NewtypeVariant(*pick(VARIANTS), Box::new(g)),
+                3 => G::Struct(vec![(*pick(NAMES), g)]),
+                4 => G::TupleVariant(*pick(VARIANTS), vec![g]),
+                _ => G::StructVariant(*pick(VARIANTS), vec![(*pick(NAMES), g)]),
+            };
+        }
+        g
+    } else if chance(1, 8) {
         // a single long string: "every length 0..200 and beyond"
         let n = if chance(1, 4) { range(200, 5000) } else { range(0, 200) };
         G::Str(gen_gstr(&kn, gen::gen_string_len(kn.classes, n)))
